@@ -33,6 +33,7 @@ var families = []family{
 	{[]int64{5, 2, 2, 2, 2, 2}, [][]int{{}, {2, 3}}},
 	{[]int64{1, 1, 1, 1}, [][]int{{1}, {2}}},       // the Byzantine member comes first in table order: it is in every minimal quorum it voted with
 	{[]int64{3, 2, 2, 2, 2}, [][]int{{1}, {1}}},    // the heaviest member (3/11 < 1/3) is Byzantine
+	{[]int64{1 << 50, 1 << 50, 1 << 50, 1 << 46}, [][]int{{4}, {4}}}, // PiB-scale raw powers (scaling arithmetic beyond int64 products); the faulty member holds 1/49
 }
 
 // input shapes over base 0: tipset ids increase along every chain
@@ -112,6 +113,16 @@ func randomScenario(mode string, rng *rand.Rand, k int) scenario {
 		sc.MaxRound = 60
 		sc.MaxSteps = 10 * envInt("VERIF_MAXSTEPS", 3000)
 		switch k % 5 {
+		case 2:
+			// a member with dust power whose vote is nevertheless needed for the honest strong quorum leaves QUALITY on its time-out with the
+			// base only (everything addressed to it is slow), the heavy members agree on the long chain; the QUALITY votes that reach it late
+			// must still widen its candidates, or every round ends in COMMIT bottom until its own (dust) ticket happens to win
+			sc.Powers = []int64{10000, 10000, 2, 10000}
+			sc.Byz, sc.Adversary = []int{4}, ""
+			sc.Inputs = mkInputs(inputShapes[0], 4, rng, false)
+			sc.SlowDest = 3
+			sc.Stagger = time.Millisecond
+			sc.GST = time.Duration(12+rng.Intn(20)) * time.Second
 		case 3:
 			// deep history: very slow network for a long time, so that stabilisation finds everybody several rounds in (back-off, rebroadcast
 			// schedule of late rounds) with nothing in flight but timers
